@@ -114,3 +114,37 @@ def a_list_of_index_triples_gives_the_locators_of_these_cells_in_order(i: int, j
     assert cp.grid is h and cp[0].grid is h and cp[1].grid is h, "associate ties the collection and its members"
     assert (cp[0].i, cp[0].j, cp[0].k) == (i, j, k) and (cp[1].i, cp[1].j, cp[1].k) == (a, b, c)
     assert m[0].grid is g and m[1].grid is g
+
+
+def hexdist(i, j):
+    return max(abs(i), abs(j), abs(i + j))
+
+
+@lemma(gen={"ring": (1, 40), "pos": (1, 240), "k": (-5, 5)})
+def ring_and_position_lead_to_the_locator_and_back(ring: int, pos: int, k: int, cornersUp: bool):
+    """(ring, position, k) -> locator object -> (ring, position): getLocatorFromRingAndPos hands out THE locator of the
+    cell getIndicesFromRingAndPos names (axial index k), and the locator's own getRingPos reads (ring, position) back;
+    the cell lies ring - 1 hex steps from the centre.  All rings >= 1 and all positions the ring has."""
+    assume(ring >= 1)
+    assume(1 <= pos)
+    assume(pos <= (1 if ring == 1 else 6 * (ring - 1)))
+    g = hexgrid(1.0, cornersUp)
+    loc = g.getLocatorFromRingAndPos(ring, pos, k)
+    i, j = g.getIndicesFromRingAndPos(ring, pos)
+    assert (loc.i, loc.j, loc.k) == (i, j, k) and loc.grid is g
+    assert loc is g[i, j, k], "the grid's one locator of that cell"
+    assert hexdist(loc.i, loc.j) == ring - 1
+    assert loc.getRingPos() == (ring, pos), "the locator reads its ring and position back"
+
+
+@lemma(gen={"i": (-40, 40), "j": (-40, 40), "k": (-5, 5)})
+def a_locator_reads_its_ring_and_position_and_leads_back_to_itself(i: int, j: int, k: int, cornersUp: bool):
+    """locator object -> (ring, position) -> locator object, for ALL integer indices"""
+    g = hexgrid(1.0, cornersUp)
+    loc = g[i, j, k]
+    ring, pos = loc.getRingPos()
+    assert ring == hexdist(i, j) + 1, "ring = hex distance + 1"
+    assert 1 <= pos and pos <= (1 if ring == 1 else 6 * (ring - 1))
+    assert g.getLocatorFromRingAndPos(ring, pos, k) is loc, "ring and position name the same locator object"
+    up, down = g.getAboveAndBelowCellIndices((i, j, k))
+    assert up == (i, j, k + 1) and down == (i, j, k - 1), "the axial neighbours are one index above and below"
